@@ -50,6 +50,27 @@ type backendValue struct {
 	named map[string]bool
 }
 
+// commonKindOf: backend value id -> index into kinds, for the values that are the bare sentinel of a common kind (see init)
+var commonKindOf = map[string]int{}
+
+func init() {
+	// every common kind as a backend value of its own (the ones the table names already are found and marked)
+	for k, kind := range kinds {
+		found := false
+		for i := range backendValues {
+			if e := backendValues[i].mk(); e == kind {
+				commonKindOf[backendValues[i].id], found = k, true
+			}
+		}
+		if !found {
+			kind := kind
+			id := "commonerrors:" + kind.Error()
+			backendValues = append(backendValues, backendValue{id, func() error { return kind }, named()})
+			commonKindOf[id] = k
+		}
+	}
+}
+
 // timeoutErr is what net/os hand out for an expired I/O deadline: Timeout() is true.
 type timeoutErr struct{}
 
@@ -249,6 +270,11 @@ func evalConversion(rep sink, conv string, v backendValue, form int, bareKind st
 	}
 	if form == fPercentW && kind != bareKind {
 		percentWDiffers = true
+	}
+	// CV6 (first sentence of the property, chain of length 0): an error that already IS one of the common kinds keeps it
+	if ck, isCommon := commonKindOf[v.id]; isCommon && (form == fBare || form == fPercentW) && mask&(1<<uint(ck)) == 0 {
+		sp.Note = "an error of a common kind came out as " + kind
+		rep.Violation(sig("common-kind-reclassified"), sp)
 	}
 	// CV4
 	if form == fBare && v.named[conv] && n != 1 && r != nil && r == in {
